@@ -77,11 +77,17 @@ impl Drop for Slots {
 }
 
 pub const ARENA_BYTES: usize = 8192;
+/// canary zones before and after the arena proper, so that an overrun past either end of the
+/// callers' memory is seen as a stray write instead of corrupting the simulator's heap
+pub const GUARD: usize = 4096;
+const TOTAL: usize = ARENA_BYTES + 2 * GUARD;
 
-/// The callers' buffer memory with a shadow copy.
+/// The callers' buffer memory with a shadow copy (both include the guard zones).
 pub struct Arena {
-    base: *mut u8,
+    raw: *mut u8,
+    /// shadow of the arena proper (public offsets)
     pub shadow: Vec<u8>,
+    guard_shadow: Vec<u8>,
 }
 
 impl Default for Arena {
@@ -92,59 +98,77 @@ impl Default for Arena {
 
 impl Arena {
     fn layout() -> Layout {
-        Layout::from_size_align(ARENA_BYTES, 64).unwrap()
+        Layout::from_size_align(TOTAL, 64).unwrap()
     }
     pub fn new() -> Self {
-        let base = unsafe { alloc_zeroed(Self::layout()) };
-        assert!(!base.is_null());
-        Arena { base, shadow: vec![0u8; ARENA_BYTES] }
+        let raw = unsafe { alloc_zeroed(Self::layout()) };
+        assert!(!raw.is_null());
+        Arena { raw, shadow: vec![0u8; ARENA_BYTES], guard_shadow: vec![0u8; 2 * GUARD] }
     }
-    /// fill arena and shadow with canary bytes
+    /// fill arena, guards and shadows with canary bytes
     pub fn fill(&mut self, f: &mut dyn FnMut(&mut [u8])) {
         f(&mut self.shadow);
-        unsafe { core::ptr::copy_nonoverlapping(self.shadow.as_ptr(), self.base, ARENA_BYTES) };
+        f(&mut self.guard_shadow);
+        self.restore();
     }
     #[inline]
     pub fn ptr(&self, off: usize) -> *mut u8 {
         debug_assert!(off <= ARENA_BYTES);
-        unsafe { self.base.add(off) }
+        unsafe { self.raw.add(GUARD + off) }
     }
     /// write into both arena and shadow
     pub fn put(&mut self, off: usize, data: &[u8]) {
         assert!(off + data.len() <= ARENA_BYTES);
         self.shadow[off..off + data.len()].copy_from_slice(data);
-        unsafe { core::ptr::copy_nonoverlapping(data.as_ptr(), self.base.add(off), data.len()) };
+        unsafe { core::ptr::copy_nonoverlapping(data.as_ptr(), self.raw.add(GUARD + off), data.len()) };
     }
     pub fn get(&self, off: usize, len: usize) -> Vec<u8> {
         assert!(off + len <= ARENA_BYTES);
         let mut v = vec![0u8; len];
-        unsafe { core::ptr::copy_nonoverlapping(self.base.add(off), v.as_mut_ptr(), len) };
+        unsafe { core::ptr::copy_nonoverlapping(self.raw.add(GUARD + off), v.as_mut_ptr(), len) };
         v
     }
-    /// first offset outside `[off, off+len)` where the arena differs from its shadow
-    pub fn diff_outside(&self, off: usize, len: usize) -> Option<usize> {
-        let a = unsafe { core::slice::from_raw_parts(self.base as *const u8, ARENA_BYTES) };
+    /// first position outside `[off, off+len)` where memory differs from its shadow:
+    /// (offset relative to the arena start — negative or >= ARENA_BYTES inside a guard zone —, expected, actual)
+    pub fn diff_outside(&self, off: usize, len: usize) -> Option<(i64, u8, u8)> {
+        let all = unsafe { core::slice::from_raw_parts(self.raw as *const u8, TOTAL) };
+        let (front, rest) = all.split_at(GUARD);
+        let (a, back) = rest.split_at(ARENA_BYTES);
+        if front != &self.guard_shadow[..GUARD] {
+            let i = (0..GUARD).find(|&i| front[i] != self.guard_shadow[i]).unwrap();
+            return Some((i as i64 - GUARD as i64, self.guard_shadow[i], front[i]));
+        }
         if a[..off] != self.shadow[..off] {
-            return (0..off).find(|&i| a[i] != self.shadow[i]);
+            let i = (0..off).find(|&i| a[i] != self.shadow[i]).unwrap();
+            return Some((i as i64, self.shadow[i], a[i]));
         }
         let e = off + len;
         if a[e..] != self.shadow[e..] {
-            return (e..ARENA_BYTES).find(|&i| a[i] != self.shadow[i]);
+            let i = (e..ARENA_BYTES).find(|&i| a[i] != self.shadow[i]).unwrap();
+            return Some((i as i64, self.shadow[i], a[i]));
+        }
+        if back != &self.guard_shadow[GUARD..] {
+            let i = (0..GUARD).find(|&i| back[i] != self.guard_shadow[GUARD + i]).unwrap();
+            return Some(((ARENA_BYTES + i) as i64, self.guard_shadow[GUARD + i], back[i]));
         }
         None
     }
-    /// restore the arena from the shadow
+    /// restore arena and guards from the shadows
     pub fn restore(&mut self) {
-        unsafe { core::ptr::copy_nonoverlapping(self.shadow.as_ptr(), self.base, ARENA_BYTES) };
+        unsafe {
+            core::ptr::copy_nonoverlapping(self.guard_shadow.as_ptr(), self.raw, GUARD);
+            core::ptr::copy_nonoverlapping(self.shadow.as_ptr(), self.raw.add(GUARD), ARENA_BYTES);
+            core::ptr::copy_nonoverlapping(self.guard_shadow.as_ptr().add(GUARD), self.raw.add(GUARD + ARENA_BYTES), GUARD);
+        }
     }
     pub fn restore_range(&mut self, off: usize, len: usize) {
-        unsafe { core::ptr::copy_nonoverlapping(self.shadow.as_ptr().add(off), self.base.add(off), len) };
+        unsafe { core::ptr::copy_nonoverlapping(self.shadow.as_ptr().add(off), self.raw.add(GUARD + off), len) };
     }
 }
 
 impl Drop for Arena {
     fn drop(&mut self) {
-        unsafe { dealloc(self.base, Self::layout()) };
+        unsafe { dealloc(self.raw, Self::layout()) };
     }
 }
 
